@@ -56,10 +56,17 @@ Definition ex_gdone (y : ex_sys) (mc kc sc : Z) : Prop :=
 Definition ex_guard (y : ex_sys) (dn : list Z) (mc kc sc : Z) : Prop :=
   ex_gcore y mc kc sc /\ (In kc dn -> ex_gdone y mc kc sc).
 
-Definition ex_ginv (y : ex_sys) (m : ex_mon) : Prop :=
+Definition ex_ginv (y : ex_sys) (m : ex_mon) (sc : Z) : Prop :=
   match ex_m_reqs m with
   | [] => True
-  | (mc, kc) :: _ => exists sc, ex_guard y (ex_m_done m) mc kc sc
+  | (mc, kc) :: _ => ex_guard y (ex_m_done m) mc kc sc
+  end.
+
+(* the style of the current exchange after a client step *)
+Definition ex_sc_after (i : ex_cin) (outs : list ex_out) (sc : Z) : Z :=
+  match i, outs with
+  | ExSend sty, [ExTx (ExReq _ _ _)] => sty
+  | _, _ => sc
   end.
 
 (* ------------------------------------------------------------------ list facts *)
@@ -577,44 +584,45 @@ Proof.
     destruct H.
 Qed.
 
-Definition ex_cg (y : ex_sys) (m : ex_mon) (i : ex_cin) (c1 : ex_cli) (outs : list ex_out)
-  (s2c' : list ex_dg) : Prop :=
+Definition ex_cg (y : ex_sys) (m : ex_mon) (sc : Z) (i : ex_cin) (c1 : ex_cli)
+  (outs : list ex_out) (s2c' : list ex_dg) : Prop :=
   forall m' app', ex_step_ok false m (i, outs) m' ->
     (forall k, existsb (ex_is_concl k) outs = true -> ex_memz k (ex_m_done m) = false) /\
-    ex_ginv (Build_ex_sys c1 (ex_y_s y) (ex_y_c2s y ++ ex_txs outs) s2c' app') m'.
+    ex_ginv (Build_ex_sys c1 (ex_y_s y) (ex_y_c2s y ++ ex_txs outs) s2c' app') m'
+            (ex_sc_after i outs sc).
 
 Lemma ex_ginv_intro : forall y' m' mc kc rest sc,
-  ex_m_reqs m' = (mc, kc) :: rest -> ex_guard y' (ex_m_done m') mc kc sc -> ex_ginv y' m'.
-Proof. intros y' m' mc kc rest sc E G. unfold ex_ginv. rewrite E. exists sc. exact G. Qed.
+  ex_m_reqs m' = (mc, kc) :: rest -> ex_guard y' (ex_m_done m') mc kc sc -> ex_ginv y' m' sc.
+Proof. intros y' m' mc kc rest sc E G. unfold ex_ginv. rewrite E. exact G. Qed.
 
 Lemma ex_memz_false_nil : forall k, ex_memz k [] = false.
 Proof. reflexivity. Qed.
 
 (* with no request ever sent the client does nothing on timers and acknowledgements *)
-Lemma ex_cg_noreqs : forall y m i c1 outs s2c',
+Lemma ex_cg_noreqs : forall y m sc i c1 outs s2c',
   ex_m_reqs m = [] -> ex_m_done m = [] ->
   (forall m', ex_step_ok false m (i, outs) m' -> ex_m_reqs m' = []) ->
-  ex_cg y m i c1 outs s2c'.
+  ex_cg y m sc i c1 outs s2c'.
 Proof.
-  intros y m i c1 outs s2c' E D H m' app' Hs. split.
+  intros y m sc i c1 outs s2c' E D H m' app' Hs. split.
   - intros k _. rewrite D. reflexivity.
   - unfold ex_ginv. rewrite (H m' Hs). exact I.
 Qed.
 
 (* ---- timer *)
-Lemma ex_cg_timer : forall cf y m s2c',
-  ex_basic y m -> ex_ginv y m ->
+Lemma ex_cg_timer : forall cf y m s2c' sc,
+  ex_basic y m -> ex_ginv y m sc ->
   (forall d, In d s2c' -> In d (ex_y_s2c y)) ->
   ex_will_nack cf (ex_y_c y) = false \/ ex_quiet y = true ->
   let r := ex_cli_step (ex_cf_maxr cf) (ex_y_c y) ExTimer in
-  ex_cg y m ExTimer (fst r) (snd r) s2c'.
+  ex_cg y m sc ExTimer (fst r) (snd r) s2c'.
 Proof.
-  intros cf y m s2c' B G Hs Hw. cbn zeta.
+  intros cf y m s2c' sc B G Hs Hw. cbn zeta.
   pose proof (ex_basic_cm _ _ B) as C.
   destruct (ex_m_reqs m) as [| [mc kc] rest] eqn:ER.
   { destruct (ex_cm_noreqs _ _ C ER) as [Q D]. unfold ex_cli_step. rewrite Q. cbn [fst snd].
     apply ex_cg_noreqs; [exact ER | exact D |]. intros m' Hm. inversion Hm; subst. exact ER. }
-  unfold ex_ginv in G. rewrite ER in G. destruct G as [sc G].
+  unfold ex_ginv in G. rewrite ER in G.
   unfold ex_cli_step. destruct (ex_c_q (ex_y_c y)) as [q |] eqn:Q.
   - destruct G as [GC GD].
     destruct (g_q _ _ _ _ GC _ Q) as [Hm [Hk Hsty]]. subst mc kc sc.
@@ -674,13 +682,13 @@ Proof.
 Qed.
 
 (* ---- send (the network is quiet) *)
-Lemma ex_cg_send : forall cf y m sty s2c',
-  ex_basic y m -> ex_ginv y m ->
+Lemma ex_cg_send : forall cf y m sty s2c' sc,
+  ex_basic y m -> ex_ginv y m sc ->
   (forall d, In d s2c' -> In d (ex_y_s2c y)) -> ex_quiet y = true ->
   let r := ex_cli_step (ex_cf_maxr cf) (ex_y_c y) (ExSend sty) in
-  ex_cg y m (ExSend sty) (fst r) (snd r) s2c'.
+  ex_cg y m sc (ExSend sty) (fst r) (snd r) s2c'.
 Proof.
-  intros cf y m sty s2c' B G Hs Hq. cbn zeta.
+  intros cf y m sty s2c' sc B G Hs Hq. cbn zeta.
   pose proof (ex_basic_cm _ _ B) as C.
   unfold ex_cli_step. destruct (ex_c_q (ex_y_c y)) as [q |] eqn:Q.
   - (* skipped *)
@@ -688,7 +696,7 @@ Proof.
     split; [intros k Hk'; discriminate Hk' |].
     destruct (ex_m_reqs m') as [| [mc kc] rest] eqn:ER.
     { unfold ex_ginv. rewrite ER. exact I. }
-    unfold ex_ginv in G. rewrite ER in G. destruct G as [sc G].
+    unfold ex_ginv in G. rewrite ER in G.
     apply (ex_ginv_intro _ _ mc kc rest sc); [exact ER |]. cbn [ex_txs].
     apply ex_guard_client_pure; auto. intros d [].
   - cbv zeta. unfold ex_req_of. cbn [fst snd ex_q_mid ex_q_tok ex_q_sty].
@@ -716,25 +724,25 @@ Proof.
 Qed.
 
 (* ---- empty ACK *)
-Lemma ex_cg_acke : forall cf y m mid ok s2c',
-  ex_basic y m -> ex_ginv y m ->
+Lemma ex_cg_acke : forall cf y m mid ok s2c' sc,
+  ex_basic y m -> ex_ginv y m sc ->
   (forall d, In d s2c' -> In d (ex_y_s2c y)) ->
   let r := ex_cli_step (ex_cf_maxr cf) (ex_y_c y) (ExRx (ExAckE mid) ok) in
-  ex_cg y m (ExRx (ExAckE mid) ok) (fst r) (snd r) s2c'.
+  ex_cg y m sc (ExRx (ExAckE mid) ok) (fst r) (snd r) s2c'.
 Proof.
-  intros cf y m mid ok s2c' B G Hs. cbn zeta.
+  intros cf y m mid ok s2c' sc B G Hs. cbn zeta.
   pose proof (ex_basic_cm _ _ B) as C.
   pose proof (ex_remove_mid_cm (ex_y_c y) m mid C) as R. cbn zeta in R.
   unfold ex_cli_step. destruct (ex_remove_mid (ex_y_c y) mid) as [c1 sent]. cbn [fst] in R.
   destruct R as [C1 [Ela [Elc [Elr [Etk [Emd Hq]]]]]].
   assert (Both : forall c2, (forall q, ex_c_q c2 = Some q -> ex_c_q c1 = Some q) ->
             ex_c_lack c2 = ex_c_lack c1 -> ex_c_lcon c2 = ex_c_lcon c1 ->
-            ex_cg y m (ExRx (ExAckE mid) ok) c2 [] s2c').
+            ex_cg y m sc (ExRx (ExAckE mid) ok) c2 [] s2c').
   { intros c2 H1 H2 H3 m' app' Hstep. inversion Hstep; subst.
     split; [intros k Hk'; discriminate Hk' |].
     destruct (ex_m_reqs m') as [| [mc kc] rest] eqn:ER.
     { unfold ex_ginv. rewrite ER. exact I. }
-    unfold ex_ginv in G. rewrite ER in G. destruct G as [sc G].
+    unfold ex_ginv in G. rewrite ER in G.
     apply (ex_ginv_intro _ _ mc kc rest sc); [exact ER |]. cbn [ex_txs].
     apply ex_guard_client_pure; auto; try congruence.
     - intros q Q. apply H1 in Q. apply Hq in Q. apply Q.
@@ -743,13 +751,13 @@ Proof.
 Qed.
 
 (* ---- Non-confirmable response *)
-Lemma ex_cg_nonr : forall cf y m mid tok ok s2c',
-  ex_basic y m -> ex_ginv y m ->
+Lemma ex_cg_nonr : forall cf y m mid tok ok s2c' sc,
+  ex_basic y m -> ex_ginv y m sc ->
   (forall d, In d s2c' -> In d (ex_y_s2c y)) ->
   let r := ex_cli_step (ex_cf_maxr cf) (ex_y_c y) (ExRx (ExNonR mid tok) ok) in
-  ex_cg y m (ExRx (ExNonR mid tok) ok) (fst r) (snd r) s2c'.
+  ex_cg y m sc (ExRx (ExNonR mid tok) ok) (fst r) (snd r) s2c'.
 Proof.
-  intros cf y m mid tok ok s2c' B G Hs. cbn zeta.
+  intros cf y m mid tok ok s2c' sc B G Hs. cbn zeta.
   pose proof (ex_basic_cm _ _ B) as C.
   pose proof (ex_cancel_tok_cm (ex_y_c y) m tok C) as R. cbn zeta in R.
   unfold ex_cli_step. set (c1 := ex_cancel_tok (ex_y_c y) tok) in *.
@@ -763,13 +771,13 @@ Proof.
             (forall d, In d (ex_txs outs) -> ex_is_req d = false) ->
             (forall m', ex_step_ok false m (ExRx (ExNonR mid tok) ok, outs) m' ->
                         ex_m_reqs m' = ex_m_reqs m /\ ex_m_done m' = ex_m_done m) ->
-            ex_cg y m (ExRx (ExNonR mid tok) ok) c2 outs s2c').
+            ex_cg y m sc (ExRx (ExNonR mid tok) ok) c2 outs s2c').
   { intros c2 outs H1 H2 H3 H4 H5 H6 m' app' Hstep.
     split; [intros k Hk'; rewrite H4 in Hk'; discriminate Hk' |].
     destruct (H6 m' Hstep) as [E1 E2].
     destruct (ex_m_reqs m') as [| [mc kc] rest] eqn:ER.
     { unfold ex_ginv. rewrite ER. exact I. }
-    unfold ex_ginv in G. rewrite <- E1 in G. destruct G as [sc G].
+    unfold ex_ginv in G. rewrite <- E1 in G.
     apply (ex_ginv_intro _ _ mc kc rest sc); [exact ER |]. rewrite E2.
     apply ex_guard_client_pure; auto; try congruence.
     intros q Q. apply H1 in Q. apply Hq in Q. apply Q. }
@@ -803,17 +811,17 @@ Lemma ex_existsb_ackr_in : forall d l, In d l -> ex_is_ackr d = true -> existsb 
 Proof. intros d l H E. apply existsb_exists. exists d. auto. Qed.
 
 (* ---- piggybacked response *)
-Lemma ex_cg_ackr : forall cf y m mid tok ok s2c',
-  ex_basic y m -> ex_ginv y m ->
+Lemma ex_cg_ackr : forall cf y m mid tok ok s2c' sc,
+  ex_basic y m -> ex_ginv y m sc ->
   (forall d, In d s2c' -> In d (ex_y_s2c y)) -> In (ExAckR mid tok) (ex_y_s2c y) ->
   let r := ex_cli_step (ex_cf_maxr cf) (ex_y_c y) (ExRx (ExAckR mid tok) ok) in
-  ex_cg y m (ExRx (ExAckR mid tok) ok) (fst r) (snd r) s2c'.
+  ex_cg y m sc (ExRx (ExAckR mid tok) ok) (fst r) (snd r) s2c'.
 Proof.
-  intros cf y m mid tok ok s2c' B G Hs Hin. cbn zeta.
+  intros cf y m mid tok ok s2c' sc B G Hs Hin. cbn zeta.
   pose proof (ex_basic_cm _ _ B) as C.
   pose proof (bs_s2c _ _ B) as S2. rewrite Forall_forall in S2. specialize (S2 _ Hin). cbn in S2.
   destruct (ex_m_reqs m) as [| [mc kc] rest] eqn:ER; [destruct S2 |].
-  unfold ex_ginv in G. rewrite ER in G. destruct G as [sc [GC GD]].
+  unfold ex_ginv in G. rewrite ER in G. destruct G as [GC GD].
   pose proof (g_s2c _ _ _ _ GC) as F. rewrite Forall_forall in F. specialize (F _ Hin). cbn in F.
   destruct F as [-> [-> Hsc]]. subst sc.
   pose proof (ex_remove_mid_cm (ex_y_c y) m mc C) as R. cbn zeta in R.
@@ -865,17 +873,17 @@ Proof.
 Qed.
 
 (* ---- separate Confirmable response *)
-Lemma ex_cg_conr : forall cf y m mid tok ok s2c',
-  ex_basic y m -> ex_ginv y m ->
+Lemma ex_cg_conr : forall cf y m mid tok ok s2c' sc,
+  ex_basic y m -> ex_ginv y m sc ->
   (forall d, In d s2c' -> In d (ex_y_s2c y)) -> In (ExConR mid tok) (ex_y_s2c y) ->
   let r := ex_cli_step (ex_cf_maxr cf) (ex_y_c y) (ExRx (ExConR mid tok) ok) in
-  ex_cg y m (ExRx (ExConR mid tok) ok) (fst r) (snd r) s2c'.
+  ex_cg y m sc (ExRx (ExConR mid tok) ok) (fst r) (snd r) s2c'.
 Proof.
-  intros cf y m mid tok ok s2c' B G Hs Hin. cbn zeta.
+  intros cf y m mid tok ok s2c' sc B G Hs Hin. cbn zeta.
   pose proof (ex_basic_cm _ _ B) as C.
   pose proof (bs_s2c _ _ B) as S2. rewrite Forall_forall in S2. specialize (S2 _ Hin). cbn in S2.
   destruct (ex_m_reqs m) as [| [mc kc] rest] eqn:ER; [destruct S2 as [[] _] |].
-  unfold ex_ginv in G. rewrite ER in G. destruct G as [sc [GC GD]].
+  unfold ex_ginv in G. rewrite ER in G. destruct G as [GC GD].
   pose proof (g_s2c _ _ _ _ GC) as F. rewrite Forall_forall in F. specialize (F _ Hin). cbn in F.
   destruct F as [-> Hsc].
   assert (Hmid : In mid (ex_conmids y)).
@@ -908,7 +916,7 @@ Proof.
               ex_m_reqs m' = ex_m_reqs m -> ex_m_done m' = kc :: ex_m_done m ->
               ex_ginv (Build_ex_sys (Build_ex_cli (ex_c_q c1) mid (ex_c_lack c1) lres' (ex_c_mid c1)
                                                   (ex_c_tok c1))
-                                    (ex_y_s y) (ex_y_c2s y ++ [a]) s2c' app') m').
+                                    (ex_y_s y) (ex_y_c2s y ++ [a]) s2c' app') m' sc).
     { intros lres' a Ha m' app' E1 E2.
       apply (ex_ginv_intro _ _ mc kc rest sc); [rewrite E1; exact ER |]. rewrite E2.
       split.
@@ -931,13 +939,20 @@ Proof.
 Qed.
 
 (* ------------------------------------------------------------------ every action *)
-Lemma ex_inv_client : forall cf y m i s2c',
+Definition ex_sc_of_obs (obs : list ex_obs) (sc : Z) : Z :=
+  match obs with
+  | [(i, outs)] => ex_sc_after i outs sc
+  | _ => sc
+  end.
+
+Lemma ex_inv_client : forall cf y m sc i s2c',
   ex_basic y m -> ex_admissible m i -> Forall (ex_s2c_ok (ex_m_reqs m)) s2c' ->
-  (let r := ex_cli_step (ex_cf_maxr cf) (ex_y_c y) i in ex_cg y m i (fst r) (snd r) s2c') ->
+  (let r := ex_cli_step (ex_cf_maxr cf) (ex_y_c y) i in ex_cg y m sc i (fst r) (snd r) s2c') ->
   let r := ex_sys_client cf y i s2c' in
-  exists m', ex_mon_path true m (snd r) m' /\ ex_basic (fst r) m' /\ ex_ginv (fst r) m'.
+  exists m', ex_mon_path true m (snd r) m' /\ ex_basic (fst r) m' /\
+             ex_ginv (fst r) m' (ex_sc_of_obs (snd r) sc).
 Proof.
-  intros cf y m i s2c' B A S CG. cbn zeta in *.
+  intros cf y m sc i s2c' B A S CG. cbn zeta in *.
   pose proof (ex_basic_client cf y m i s2c' B A S) as H. cbn zeta in H.
   unfold ex_sys_client in *.
   destruct (ex_cli_step (ex_cf_maxr cf) (ex_y_c y) i) as [c1 outs]. cbn [fst snd] in *.
@@ -952,28 +967,32 @@ Proof.
   econstructor; [| constructor]. apply ex_step_strengthen; assumption.
 Qed.
 
-Lemma ex_ginv_map : forall y y' m,
-  ex_ginv y m ->
-  (forall mc kc sc, ex_guard y (ex_m_done m) mc kc sc -> ex_guard y' (ex_m_done m) mc kc sc) ->
-  ex_ginv y' m.
+Lemma ex_ginv_map : forall y y' m sc,
+  ex_ginv y m sc ->
+  (forall mc kc, ex_guard y (ex_m_done m) mc kc sc -> ex_guard y' (ex_m_done m) mc kc sc) ->
+  ex_ginv y' m sc.
 Proof.
-  intros y y' m G H. unfold ex_ginv in *. destruct (ex_m_reqs m) as [| [mc kc] rest]; [exact I |].
-  destruct G as [sc G]. exists sc. apply H. exact G.
+  intros y y' m sc G H. unfold ex_ginv in *. destruct (ex_m_reqs m) as [| [mc kc] rest]; [exact I |].
+  apply H. exact G.
 Qed.
 
-Lemma ex_inv_step : forall maxr y m a,
-  ex_basic y m -> ex_ginv y m ->
+Lemma ex_inv_step : forall maxr y m sc a,
+  ex_basic y m -> ex_ginv y m sc ->
   let r := ex_sys_step (ex_cfg_guarded maxr) y a in
-  exists m', ex_mon_path true m (snd r) m' /\ ex_basic (fst r) m' /\ ex_ginv (fst r) m'.
+  exists m', ex_mon_path true m (snd r) m' /\ ex_basic (fst r) m' /\
+             ex_ginv (fst r) m' (ex_sc_of_obs (snd r) sc).
 Proof.
-  intros maxr y m a B G. cbn zeta. set (cf := ex_cfg_guarded maxr).
+  intros maxr y m sc a B G. cbn zeta. set (cf := ex_cfg_guarded maxr).
   assert (Same : exists m', ex_mon_path true m (snd (y, @nil ex_obs)) m' /\
-                            ex_basic (fst (y, @nil ex_obs)) m' /\ ex_ginv (fst (y, @nil ex_obs)) m').
+                            ex_basic (fst (y, @nil ex_obs)) m' /\
+                            ex_ginv (fst (y, @nil ex_obs)) m' (ex_sc_of_obs (snd (y, @nil ex_obs)) sc)).
   { exists m. split; [constructor | split; assumption]. }
   assert (NC : forall y', snd (ex_sys_step cf y a) = [] -> fst (ex_sys_step cf y a) = y' ->
-               ex_ginv y' m ->
+               ex_ginv y' m sc ->
                exists m', ex_mon_path true m (snd (ex_sys_step cf y a)) m' /\
-                          ex_basic (fst (ex_sys_step cf y a)) m' /\ ex_ginv (fst (ex_sys_step cf y a)) m').
+                          ex_basic (fst (ex_sys_step cf y a)) m' /\
+                          ex_ginv (fst (ex_sys_step cf y a)) m'
+                                  (ex_sc_of_obs (snd (ex_sys_step cf y a)) sc)).
   { intros y' E1 E2 G'.
     pose proof (ex_basic_step cf y m a B) as H. cbn zeta in H. destruct H as [m' [P B']].
     rewrite E1 in *. apply ex_mon_path_nil_inv in P. subst m'.
@@ -1010,16 +1029,16 @@ Proof.
   - (* duplicate towards the client *)
     unfold ex_sys_step in *. destruct (nth_error (ex_y_s2c y) i) as [d |] eqn:E; [| exact Same].
     pose proof (nth_error_In _ _ E) as Hin.
-    apply (NC _ eq_refl eq_refl). apply (ex_ginv_map y); [exact G |]. intros mc kc sc G1.
+    apply (NC _ eq_refl eq_refl). apply (ex_ginv_map y); [exact G |]. intros mc kc G1.
     apply ex_guard_net_c; [exact G1 |].
     intros x Hx. apply ex_In_snoc in Hx. destruct Hx as [Hx | ->]; assumption.
-  - apply (NC _ eq_refl eq_refl). apply (ex_ginv_map y); [exact G |]. intros mc kc sc G1.
+  - apply (NC _ eq_refl eq_refl). apply (ex_ginv_map y); [exact G |]. intros mc kc G1.
     apply ex_guard_net_c; [exact G1 |]. intros x. apply ex_In_remove_nth.
   - (* delivery to the server *)
     unfold ex_sys_step. destruct (nth_error (ex_y_c2s y) i) as [d |] eqn:E; [| exact Same].
     pose proof (ex_basic_step cf y m (ExADelS i) B) as H. cbn zeta in H. unfold ex_sys_step in H.
     rewrite E in H.
-    pose proof (fun mc kc sc G1 => ex_guard_srvrx cf y (ex_m_done m) mc kc sc i d eq_refl G1 E) as GS.
+    pose proof (fun mc kc G1 => ex_guard_srvrx cf y (ex_m_done m) mc kc sc i d eq_refl G1 E) as GS.
     cbn zeta in GS.
     destruct (ex_srv_rx cf (ex_y_s y) d) as [s1 ds]. cbn [fst snd] in *.
     destruct H as [m' [P B']]. apply ex_mon_path_nil_inv in P. subst m'.
@@ -1027,21 +1046,21 @@ Proof.
     apply (ex_ginv_map y); [exact G | exact GS].
   - unfold ex_sys_step in *. destruct (nth_error (ex_y_c2s y) i) as [d |] eqn:E; [| exact Same].
     pose proof (nth_error_In _ _ E) as Hin.
-    apply (NC _ eq_refl eq_refl). apply (ex_ginv_map y); [exact G |]. intros mc kc sc G1.
+    apply (NC _ eq_refl eq_refl). apply (ex_ginv_map y); [exact G |]. intros mc kc G1.
     apply ex_guard_net_s; [exact G1 |].
     intros x Hx. apply ex_In_snoc in Hx. destruct Hx as [Hx | ->]; assumption.
-  - apply (NC _ eq_refl eq_refl). apply (ex_ginv_map y); [exact G |]. intros mc kc sc G1.
+  - apply (NC _ eq_refl eq_refl). apply (ex_ginv_map y); [exact G |]. intros mc kc G1.
     apply ex_guard_net_s; [exact G1 |]. intros x. apply ex_In_remove_nth.
   - (* async delay over *)
     pose proof (ex_basic_step cf y m (ExAFire j) B) as H. cbn zeta in H. unfold ex_sys_step in *.
-    pose proof (fun mc kc sc G1 => ex_guard_fire y (ex_m_done m) mc kc sc j G1) as GS. cbn zeta in GS.
+    pose proof (fun mc kc G1 => ex_guard_fire y (ex_m_done m) mc kc sc j G1) as GS. cbn zeta in GS.
     destruct (ex_srv_fire (ex_y_s y) j) as [s1 ds]. cbn [fst snd] in *.
     destruct H as [m' [P B']]. apply ex_mon_path_nil_inv in P. subst m'.
     exists m. split; [constructor | split; [exact B' |]].
     apply (ex_ginv_map y); [exact G | exact GS].
   - (* the server's retransmission timer *)
     pose proof (ex_basic_step cf y m (ExASrvTimer j) B) as H. cbn zeta in H. unfold ex_sys_step in *.
-    pose proof (fun mc kc sc G1 => ex_guard_srvtimer (ex_cf_maxr cf) y (ex_m_done m) mc kc sc j G1) as GS.
+    pose proof (fun mc kc G1 => ex_guard_srvtimer (ex_cf_maxr cf) y (ex_m_done m) mc kc sc j G1) as GS.
     cbn zeta in GS.
     destruct (ex_srv_timer (ex_cf_maxr cf) (ex_y_s y) j) as [s1 ds]. cbn [fst snd] in *.
     destruct H as [m' [P B']]. apply ex_mon_path_nil_inv in P. subst m'.
@@ -1049,21 +1068,21 @@ Proof.
     apply (ex_ginv_map y); [exact G | exact GS].
 Qed.
 
-Lemma ex_inv_run : forall maxr acts y m,
-  ex_basic y m -> ex_ginv y m ->
+Lemma ex_inv_run : forall maxr acts y m sc,
+  ex_basic y m -> ex_ginv y m sc ->
   let r := ex_sys_run (ex_cfg_guarded maxr) y acts in
-  exists m', ex_mon_path true m (snd r) m' /\ ex_basic (fst r) m' /\ ex_ginv (fst r) m'.
+  exists m' sc', ex_mon_path true m (snd r) m' /\ ex_basic (fst r) m' /\ ex_ginv (fst r) m' sc'.
 Proof.
-  intros maxr acts. induction acts as [| a acts IH]; intros y m B G; cbn zeta.
-  - exists m. split; [constructor | split; assumption].
+  intros maxr acts. induction acts as [| a acts IH]; intros y m sc B G; cbn zeta.
+  - exists m, sc. split; [constructor | split; assumption].
   - cbn [ex_sys_run].
-    pose proof (ex_inv_step maxr y m a B G) as H. cbn zeta in H.
+    pose proof (ex_inv_step maxr y m sc a B G) as H. cbn zeta in H.
     destruct (ex_sys_step (ex_cfg_guarded maxr) y a) as [y1 o]. cbn [fst snd] in H.
     destruct H as [m1 [P1 [B1 G1]]].
-    pose proof (IH y1 m1 B1 G1) as H2. cbn zeta in H2.
+    pose proof (IH y1 m1 _ B1 G1) as H2. cbn zeta in H2.
     destruct (ex_sys_run (ex_cfg_guarded maxr) y1 acts) as [y2 t]. cbn [fst snd] in *.
-    destruct H2 as [m2 [P2 [B2 G2]]].
-    exists m2. split; [eapply ex_mon_path_snoc; eassumption | split; assumption].
+    destruct H2 as [m2 [sc2 [P2 [B2 G2]]]].
+    exists m2, sc2. split; [eapply ex_mon_path_snoc; eassumption | split; assumption].
 Qed.
 
 (* Part 2: with the three hypotheses, for every schedule *)
@@ -1071,8 +1090,8 @@ Theorem ex_system_safe : forall maxr cmid0 smid0 acts,
   ex_property (ex_sys_trace (ex_cfg_guarded maxr) (ex_sys_init cmid0 smid0) acts).
 Proof.
   intros maxr cmid0 smid0 acts. unfold ex_sys_trace.
-  pose proof (ex_inv_run maxr acts _ _ (ex_basic_init cmid0 smid0) I) as H. cbn zeta in H.
-  destruct H as [m' [P _]].
+  pose proof (ex_inv_run maxr acts _ _ 0 (ex_basic_init cmid0 smid0) I) as H. cbn zeta in H.
+  destruct H as [m' [sc' [P _]]].
   unfold ex_property.
   split; [eapply ex_sound_once; exact P |].
   split; [eapply ex_sound_token; exact P |].
